@@ -780,7 +780,7 @@ pub fn concretise_factor(q: i64) -> i64 {
 }
 
 /// replay behaviours printed by TLC from spec/Gen_Duration.tla (one JSON array of steps per line)
-pub fn l2_durations(rec: &mut Rec, path: &str) -> u64 {
+pub fn l2_durations(rec: &mut Rec, path: &str, allowed: &[&str]) -> u64 {
     let txt = match std::fs::read_to_string(path) {
         Ok(t) => t,
         Err(_) => return 0,
@@ -797,6 +797,9 @@ pub fn l2_durations(rec: &mut Rec, path: &str) -> u64 {
         m.load(0, 0);
         for (k, step) in v.as_array().unwrap().iter().enumerate() {
             let op = step["op"].as_str().unwrap_or("");
+            if !allowed.contains(&op) {
+                continue; // calls that are not the subject of the property being checked are left out
+            }
             let a: Vec<i64> = step["a"].as_array().map(|x| x.iter().map(|y| y.as_i64().unwrap_or(0)).collect()).unwrap_or_default();
             let var = nb + k as u64;
             let dur = |x: i64| {
